@@ -206,12 +206,12 @@ def signature(scn_name, ex):
     return scn_name + "|" + "+".join(sorted(parts)) + fin
 
 
-def check(prop, scns, level="model_checking", sub="", design=True):
+def check(prop, scns, level="model_checking", sub="", design=True, max_exec=None):
     from core import write_evidence
     t0 = time.time()
     d = rundir("%s_conc%s_%s" % (prop, sub, tier()))
     sd = spec_copy(d)
-    max_exec = 1500 if tier() == "quick" else 20000
+    max_exec = max_exec or (1500 if tier() == "quick" else 20000)
     out, idx = explore(d, scns, max_exec)
     bytr = {i["tr"]: i for i in idx["index"]}
     shards = sorted(f for f in os.listdir(out) if f.startswith("shard"))
@@ -276,8 +276,12 @@ def check(prop, scns, level="model_checking", sub="", design=True):
             conf["drift"], conf["executions"], [(r["scenario"], r["drift"][:1]) for r in conf["per_scenario"] if r["drift_n"]][:4]))
     states += layer2["distinct_states"]
     gen += layer2["states_generated"]
+    # where the code leaves the model, look closer: all completions of the schedule up to that point (real executions, same judge)
+    drift_cov, drift_viol = None, 0
+    if conf.get("drift") and sub != "_drift":
+        drift_cov, drift_viol = drift_check(prop, scns, idx, conf)
     cov = {
-        "layer2_model": layer2, "layer2_conformance": conf,
+        "layer2_model": layer2, "layer2_conformance": conf, "drift_directed": drift_cov,
         "states": max(states, 1), "transitions": max(gen, 1), "traces_validated_against_impl": total_exec,
         "samples": [{"scenario": scns[0], "schedule": idx["index"][0]["schedule"] if idx["index"] else []},
                     {"recorded": [{"ev": e["ev"], "proc": e.get("proc"), "c": e["c"], "t": e["t"], "r": e["r"]} for e in (sample or [])][:8]}],
@@ -289,7 +293,7 @@ def check(prop, scns, level="model_checking", sub="", design=True):
         "rejected_signatures": {k: len(v) for k, v in sigs.items()},
         "known_findings_seen": [k["key"] for k in known],
     }
-    return cov, len(viol), time.time() - t0
+    return cov, len(viol) + drift_viol, time.time() - t0
 
 
 def guided_templates():
@@ -321,3 +325,46 @@ def guided_check(prop, num=None):
     cov["generated_from_model"] = stats
     cov.pop("samples", None)
     return cov, nviol, dt
+
+
+def drift_scenarios(scns, idx, conf, limit=6):
+    """Where a recorded call sequence of the real mint is not a behaviour of MintSteps, the code does something the model does not
+    know: the schedule up to the last step they agree on becomes the prefix of a new scenario whose completions are all explored."""
+    bytr = {i["tr"]: i for i in idx["index"]}
+    byname = {s["name"]: s for s in scns}
+    out, seen = [], set()
+    for r in conf.get("per_scenario", []):
+        for dr in r.get("drift", []):
+            info = bytr.get(dr["tr"])
+            if not info or dr["matched_steps"] >= len(info["schedule"]) or dr["matched_steps"] < 1:
+                continue
+            base = re.sub(r"#\d+$", "", r["scenario"])
+            key = (base, dr["first_unmatched"])
+            if key in seen:
+                continue
+            seen.add(key)
+            e = json.loads(json.dumps(byname[r["scenario"]]))
+            for k in ("schedules", "lenient", "model_schedule"):
+                e.pop(k, None)
+            e["name"] = "%s@drift%d" % (base, len(seen))
+            # the step that cannot be explained is where the consequence shows, the cause lies earlier: keep half of the common prefix
+            e["from"] = [x.split(":", 1)[0] for x in info["schedule"][:dr["matched_steps"] // 2]]
+            e["drift_at"] = dr["first_unmatched"]
+            out.append(e)
+            if len(out) >= limit:
+                return out
+    return out
+
+
+def drift_check(prop, scns, idx, conf):
+    """Drift-directed exploration (nothing to do on a tree that conforms to MintSteps)."""
+    ds = drift_scenarios(scns, idx, conf)
+    if not ds:
+        return None, 0
+    try:
+        cov, nviol, _ = check(prop, ds, sub="_drift", design=False, max_exec=250)
+    except Infra as ex:
+        print("NOTE: drift-directed exploration did not complete: %s" % str(ex)[:300])
+        return {"error": str(ex)[:300]}, 0
+    return {"explored_from": [{"scenario": x["name"], "prefix_steps": len(x["from"]), "first_step_outside_the_model": x["drift_at"]} for x in ds],
+            "executions": cov["traces_validated_against_impl"], "rejected_signatures": cov["rejected_signatures"]}, nviol
